@@ -82,7 +82,7 @@ func (ex *Exec) intrinsic(th *Thread, caller *frame, fn *ssa.Function, args []Va
 		return ex.bNot(args[0])
 	case "vImplies":
 		return ex.bOr(ex.bNot(args[0]), args[1])
-	case "vIteInt64", "vIteUint64", "vIteInt", "vIteByte", "vIteUint32":
+	case "vIteInt64", "vIteUint64", "vIteInt", "vIteByte", "vIteUint32", "vIteInt32":
 		w, _, _ := intWidth(fn.Signature.Results().At(0).Type())
 		c := args[0]
 		if b, ok := c.(bool); ok {
@@ -107,11 +107,10 @@ func (ex *Exec) intrinsic(th *Thread, caller *frame, fn *ssa.Function, args []Va
 		if a.len != b.len {
 			return false
 		}
-		var res Value = true
-		for i := 0; i < a.len; i++ {
-			res = ex.bAnd(res, ex.equals(types.Typ[types.Uint8], a.at(i), b.at(i)))
+		if a.len == 0 {
+			return true
 		}
-		return res
+		return ex.bytesEq(a.elems()[a.off:a.off+a.len], b.elems()[b.off:b.off+b.len])
 	case "vStrEq":
 		if strLenOrNeg(args[0]) != strLenOrNeg(args[1]) {
 			return false
@@ -208,6 +207,49 @@ func (ex *Exec) intrinsic(th *Thread, caller *frame, fn *ssa.Function, args []Va
 		return ex.fromTerm(ex.ts.Not(fits))
 	case "vSleepMs":
 		return nil
+	case "vWide":
+		// n fresh symbolic bytes backed by ONE wide bit-vector variable (keeps signature-model terms small)
+		n := int(ex.intOf(args[1], "vWide length"))
+		et := fn.Signature.Results().At(0).Type().Underlying().(*types.Slice).Elem()
+		if n == 0 {
+			return ex.makeSlice(et, 0, 0)
+		}
+		v := ex.newInput(ex.concreteString(args[0], "input name"), 8*n)
+		return ex.bytesFromTerm(v, et)
+	case "vSelBytes":
+		// pool[sel] as one wide ite chain (sel symbolic, assumed in range by the caller)
+		pool := sliceVals(args[1])
+		et := fn.Signature.Results().At(0).Type().Underlying().(*types.Slice).Elem()
+		if len(pool) == 0 {
+			panic(abortPath{"vSelBytes: empty pool"})
+		}
+		n := pool[0].(Slice).len
+		var ts []*Term
+		for _, pv := range pool {
+			ps := pv.(Slice)
+			if ps.len != n {
+				panic(abortPath{"vSelBytes: lengths differ"})
+			}
+			ts = append(ts, ex.bytesTerm(ps))
+		}
+		out := ts[len(ts)-1]
+		for i := len(ts) - 2; i >= 0; i-- {
+			c := ex.equals(types.Typ[types.Int], args[0], uint64(i))
+			out = ex.ts.Ite(ex.boolTerm(c), ts[i], out)
+		}
+		return ex.bytesFromTerm(out, et)
+	case "vVerify":
+		pk, msg, sig := args[0].(Slice), args[1].(Slice), args[2].(Slice)
+		if pk.len != 32 || sig.len != 64 {
+			return false
+		}
+		return ex.verifyModel(pk, msg, sig)
+	case "vJunk":
+		// bytes that are not the encoding of anything (never decode, never verify)
+		n := int(ex.intOf(args[1], "vJunk length"))
+		et := fn.Signature.Results().At(0).Type().Underlying().(*types.Slice).Elem()
+		s := ex.symBytesSlice(ex.concreteString(args[0], "input name"), n, et)
+		return s
 	case "vLabel":
 		ex.labels = append(ex.labels, ex.concreteString(args[0], "label"))
 		return nil
@@ -362,16 +404,12 @@ func (ex *Exec) sigOf(seed, msg *Term, n int) *Term {
 	s := ex.ts.UF(name, 512, seed, msg)
 	if !ex.sigSeen[s.id] {
 		ex.sigSeen[s.id] = true
-		if ex.sigInjective {
-			for _, o := range ex.sigApps {
-				var same *Term
-				if o.n == n {
-					same = ex.ts.And(ex.ts.Eq(o.seed, seed), ex.ts.Eq(o.msg, msg))
-				} else {
-					same = ex.ts.False
-				}
-				ex.addAxiom(ex.ts.Or(same, ex.ts.Not(ex.ts.Eq(o.sig, s))))
-			}
+		if !ex.sigNotInjective {
+			// injectivity through inverse functions (linear number of axiom instances):
+			// SIGSEED(SIG_n(s,m)) = s, SIGMSG_n(SIG_n(s,m)) = m, SIGLEN(SIG_n(s,m)) = n
+			ex.addAxiom(ex.ts.Eq(ex.ts.UF("SIGSEED", 256, s), seed))
+			ex.addAxiom(ex.ts.Eq(ex.ts.UF(fmt.Sprintf("SIGMSG_%d", n), msg.w, s), msg))
+			ex.addAxiom(ex.ts.Eq(ex.ts.UF("SIGLEN", 16, s), ex.ts.Const(uint64(n), 16)))
 		}
 		ex.sigApps = append(ex.sigApps, sigApp{seed, msg, s, n})
 	}
@@ -646,22 +684,7 @@ func registerModels(P *Program) {
 		if sig.len != 64 {
 			return false
 		}
-		if ex.isJunk(pk) || ex.isJunk(sig) {
-			return false
-		}
-		pkt := ex.bytesTerm(pk)
-		var mt *Term
-		if msg.len == 0 {
-			mt = ex.ts.Const(0, 8)
-		} else {
-			mt = ex.bytesTerm(msg)
-		}
-		inv := ex.ts.UF("INV", 256, pkt)
-		isKey := ex.ts.Eq(ex.ts.UF("PUB", 256, inv), pkt)
-		// register the axiom instance for INV(pk) as a seed
-		ex.pubOf(inv)
-		good := ex.ts.Eq(ex.bytesTerm(sig), ex.sigOf(inv, mt, msg.len))
-		return ex.fromTerm(ex.ts.And(isKey, good))
+		return ex.verifyModel(pk, msg, sig)
 	}
 	ic["(*crypto/rand.reader).Read"] = func(ex *Exec, th *Thread, caller *frame, fn *ssa.Function, args []Value) Value {
 		b := args[1].(Slice)
